@@ -38,7 +38,7 @@ public:
         for (int a = 0; a < attempts; ++a) {
             // cut after k deliveries (k beyond the negotiation lands in the established session)
             int k = (int)r.range(0, 22);
-            int kind = r.weighted({ 30, 40, 10, 8, 12 });   // 0 server close, 1 abortive cut, 2 stall (session only), 3 connect refused, 4 clean </stream> close
+            int kind = r.weighted({ 28, 36, 10, 8, 10, 8 });   // 0 server close, 1 abortive cut, 2 stall (session only), 3 connect refused, 4 clean </stream> close, 5 see-other-host at this point
             int iqs = (int)r.uniform(4);
             p.ops.append(mkop(QStringLiteral("att"), { k, kind, iqs }, {}, (quint32)r.next()));
             p.ops.append(mkop(QStringLiteral("wait"), { (qint64)r.uniform(2) }, {}, (quint32)r.next()));
@@ -77,6 +77,11 @@ public:
                     }
                 }
                 checkConnectedLegit();
+                // a session may only be reported while the connection it was negotiated on is the current one
+                if ((w.client->isConnected() || w.client->state() == QXmppClient::ConnectedState) && !w.serverReadyDelivered()) {
+                    w.violation(QStringLiteral("session_reported_during_negotiation"), QStringLiteral("C10:session_reported_before_negotiation_finished"),
+                                QStringLiteral("isConnected()/state() report a session on connection %1 although the server's completing element has not been delivered on it").arg(w.linkIndex()));
+                }
             };
             auto issueIqs = [&](int n) {
                 for (int i = 0; i < n; ++i) {
@@ -236,6 +241,20 @@ public:
                     case 3:
                         w.cutLink(r.chance(0.5) ? QAbstractSocket::NetworkError : QAbstractSocket::SocketTimeoutError);
                         where = QStringLiteral("abortive_cut");
+                        break;
+                    case 5:
+                        if (auto *c = w.server->current()) {
+                            // the server redirects this stream (possibly an established session) to another host
+                            w.fault("see_other_host_mid_stream");
+                            c->send("<stream:error><see-other-host xmlns='urn:ietf:params:xml:ns:xmpp-streams'>alt.sim:5299</see-other-host></stream:error>");
+                            c->closeStream(true);
+                            // deliver until the client has left this connection
+                            SimLink *l = w.link();
+                            for (int guard = 0; guard < 40 && w.link() == l && (w.deliver(1) || w.deliver(0)); ++guard) {
+                                onStepInvariants();
+                            }
+                            where = QStringLiteral("redirect");
+                        }
                         break;
                     case 4:
                         if (!w.server->current()) {
